@@ -1,0 +1,11 @@
+//go:build verif
+
+// verif hook H1: link the wrapper against the system librocksdb instead of
+// c-deps. See verif_shim.h. Not part of the default build.
+
+package rocksdb
+
+// #cgo CFLAGS: -DQED_SYSTEM_ROCKSDB -include ${SRCDIR}/verif_shim.h
+// #cgo CXXFLAGS: -std=c++17 -O2 -DQED_SYSTEM_ROCKSDB -I${SRCDIR}/verif_include -include ${SRCDIR}/verif_shim.h
+// #cgo LDFLAGS: -lrocksdb -lsnappy -lstdc++ -ldl -lpthread -lm -lrt
+import "C"
